@@ -1,4 +1,5 @@
 import DendroModel.Model.C19Ext
+import DendroModel.Model.C19Heap
 open DendroModel DendroModel.C19
 
 /-! line protocol of `drv_c19`.
@@ -8,16 +9,25 @@ ops     := concat n M_1 … M_n | export_idx M k i_1 … i_k | export_sub M labe
          | fill M value size|N append | fill_taxa M | pack M value size|N append
          | add|replace|update|extend|extend_new|extend_matrix M O
          | remove|discard|keep M k t_1 … t_k
-         | new_subset M label k i_1 … i_k | sizes M
+         | new_subset M label k i_1 … i_k | sizes M | contains M t
          | history M k { call }   (call = a mutating single operation without its first matrix: `add O`, `remove k t…`,
                                    `fill v size app`, `getitem t`, …; answer: the state after `run`)
          | getitem M t | setitem M t k c_1 … c_k | newseq M t k c_1 … c_k | delitem M t | clear M | items M
          | concat_streams k { n tok_1 … tok_n }   (each stream = the n tokens of a matrix; unparsable = reader error)
          | concat_streams_ns k { n tok_1 … tok_n }   (each stream = `label nrows { taxon ncells c… }`, read into ONE growing namespace)
          | concat_paths k { 0 | 1 n tok_1 … tok_n }   (0 = the path cannot be opened)
+         | world k M_1 … M_k n { hcall }   (REFERENCE semantics, `Model/C19Heap.lean`: the pool as matrix objects over a heap of
+                                   sequence objects; hcall names its operands by pool position: `add i j` … `extend_matrix i j`,
+                                   `remove|discard|keep i k t…`, `remove_m|discard_m|keep_m i j` (the taxa argument is matrix j),
+                                   `fill i v size app`, `fill_taxa i`, `pack i v size app`, `getitem i t`, `setitem i t k c…`,
+                                   `newseq i t k c…`, `delitem i t`, `clear i`, `new_subset i label k idx…`, `clone i`,
+                                   `export_idx i k idx…`, `export_sub i label`, `concat k j…` (new matrices are appended),
+                                   `setseq i t j u` (m_i[t] = the sequence OBJECT of m_j[u]), `copy i` (shallow);
+                                   answer: `ok` then for every call ` | status world`, world = `M R … S …` per pool position
+                                   and `A i:t+i:t,…` = the groups of dict entries that hold one and the same sequence object)
 answers := `ok [size] R taxon=c.c.c … S label=i.i …` (rows sorted by taxon: the dict's insertion order is not part of the
            statement — it only decides `sequence_size` of ragged matrices — and is deliberately not compared) | `ValueError` | `KeyError [R … S …]` | `IndexError`
-         | `ok len maxsize` (sizes) | `ok row=c.c R … S …` (getitem) | `ok t=c.c t=c.c …` (items, in iteration order) | `ParseError` | `OpenError` -/
+         | `ok len maxsize sequence_size` (sizes; sequence_size = length of the FIRST row in dict insertion order) | `ok 0|1` (contains M t) | `ok row=c.c R … S …` (getitem) | `ok t=c.c t=c.c …` (items, in iteration order) | `ParseError` | `OpenError` -/
 
 abbrev P := StateT (List String) Option
 
@@ -176,6 +186,93 @@ def whole {α} (p : P α) (ws : List String) : Option α :=
   | some (a, []) => some a
   | _ => none
 
+
+/-! ### op `world` -/
+
+def pBinOp (name : String) : Option BinOp :=
+  if name == "add" then some .add else if name == "replace" then some .replace else if name == "update" then some .update
+  else if name == "extend" then some .extend else if name == "extend_new" then some .extendNew
+  else if name == "extend_matrix" then some .extendMatrix else none
+
+def pHCall : P HCall := do
+  let name ← tok
+  match pBinOp name with
+  | some op => do
+    let i ← pNat; let j ← pNat
+    return .bin op i j
+  | none =>
+    if name == "remove" then do let i ← pNat; return .remove i (← pCounted pNat)
+    else if name == "discard" then do let i ← pNat; return .discard i (← pCounted pNat)
+    else if name == "keep" then do let i ← pNat; return .keep i (← pCounted pNat)
+    else if name == "remove_m" then do let i ← pNat; return .removeM i (← pNat)
+    else if name == "discard_m" then do let i ← pNat; return .discardM i (← pNat)
+    else if name == "keep_m" then do let i ← pNat; return .keepM i (← pNat)
+    else if name == "fill" then do
+      let i ← pNat; let v ← pNat; let s ← pSize; let a ← pBool
+      return .fill i v s a
+    else if name == "pack" then do
+      let i ← pNat; let v ← pNat; let s ← pSize; let a ← pBool
+      return .pack i v s a
+    else if name == "fill_taxa" then return .fillTaxa (← pNat)
+    else if name == "getitem" then do let i ← pNat; return .getItem i (← pNat)
+    else if name == "setitem" then do
+      let i ← pNat; let t ← pNat; let r ← pCounted pNat
+      return .setItem i t r
+    else if name == "newseq" then do
+      let i ← pNat; let t ← pNat; let r ← pCounted pNat
+      return .newSeq i t r
+    else if name == "delitem" then do let i ← pNat; return .delItem i (← pNat)
+    else if name == "clear" then return .clear (← pNat)
+    else if name == "new_subset" then do
+      let i ← pNat; let l ← pSomeLabel; let idx ← pCounted pNat
+      return .newSubset i l idx
+    else if name == "clone" then return .clone (← pNat)
+    else if name == "export_idx" then do let i ← pNat; return .exportIdx i (← pCounted pInt)
+    else if name == "export_sub" then do let i ← pNat; return .exportSub i (← pSomeLabel)
+    else if name == "concat" then return .concat (← pCounted pNat)
+    else if name == "setseq" then do
+      let i ← pNat; let t ← pNat; let j ← pNat; let u ← pNat
+      return .setSeq i t j u
+    else if name == "copy" then return .copy (← pNat)
+    else failure
+
+def insRef (kv : Taxon × Nat) : Refs → Refs
+  | [] => [kv]
+  | x :: xs => if kv.1 ≤ x.1 then kv :: x :: xs else x :: insRef kv xs
+
+/-- every dict entry of the pool: (address, matrix position, taxon), matrices in order, taxa ascending -/
+def slotList (w : World) : List (Nat × Nat × Taxon) :=
+  (List.range w.mats.length).flatMap (fun i => ((refsOf w i).foldr insRef []).map (fun p => (p.2, i, p.1)))
+
+def showGroups (w : World) : String :=
+  let sl := slotList w
+  let rec go (seen : List Nat) : List (Nat × Nat × Taxon) → List String
+    | [] => []
+    | (a, _, _) :: rest =>
+      if seen.contains a then go seen rest
+      else
+        let grp := sl.filter (fun s => s.1 == a)
+        if grp.length ≥ 2 then "+".intercalate (grp.map (fun s => s!"{s.2.1}:{s.2.2}")) :: go (a :: seen) rest
+        else go (a :: seen) rest
+  ",".intercalate (go [] sl)
+
+def showWorld (w : World) : String :=
+  let g := showGroups w
+  " ".intercalate ((views w).map (fun m => "M " ++ showState m.rows m.subs) ++ (if g == "" then ["A"] else ["A", g]))
+
+def showStatus : Option Err → String
+  | none => "ok"
+  | some e => showErr e
+
+/-- calls one after the other; a call naming a position the pool does not have is not a call -/
+def runWorld : World → List HCall → Option (List String)
+  | _, [] => some []
+  | w, c :: cs =>
+    if c.positions.all (fun i => i < w.mats.length) then
+      let (w', e) := hStep w c
+      (runWorld w' cs).map (fun r => (showStatus e ++ " " ++ showWorld w') :: r)
+    else none
+
 def handle (ws : List String) : String :=
   match ws with
   | "concat" :: rest =>
@@ -244,7 +341,11 @@ def handle (ws : List String) : String :=
     | none => "bad-op"
   | "sizes" :: rest =>
     match whole pMatrix rest with
-    | some m => s!"ok {matLen m} {maxSeqSize m}"
+    | some m => s!"ok {matLen m} {maxSeqSize m} {vectorSize m.rows}"
+    | none => "bad-op"
+  | "contains" :: rest =>
+    match whole (do let m ← pMatrix; let t ← pNat; pure (m, t)) rest with
+    | some (m, t) => if has t m.rows then "ok 1" else "ok 0"
     | none => "bad-op"
   | "concat_streams" :: rest =>
     match whole (pCounted (pCounted tok)) rest with
@@ -253,6 +354,15 @@ def handle (ws : List String) : String :=
   | "concat_streams_ns" :: rest =>
     match whole (pCounted (pCounted tok)) rest with
     | some streams => showSRes (concatFromStreamsNS 0 (whole pParsed) streams)
+    | none => "bad-op"
+  | "world" :: rest =>
+    match whole (do let ms ← pCounted pMatrix; let cs ← pCounted pHCall; pure (ms, cs)) rest with
+    | some (ms, cs) =>
+      if coherent ms then
+        match runWorld (initWorld ms) cs with
+        | some outs => " | ".intercalate ("ok" :: outs)
+        | none => "bad-op"
+      else "bad-op"
     | none => "bad-op"
   | "concat_paths" :: rest =>
     match whole (pCounted pPath) rest with
